@@ -174,6 +174,9 @@ def r09_5(prog: Program, rep: Report):
                 # branch that keeps the annotation itself; a *labelled* one (NewType / alias of a generic) has a name
                 is_own_unwrapped = lambda s: s[0] == "cmp" and s[1] == "is" and (T.is_call_to(s[3], f"{C.INSP}.unwrap") or T.is_call_to(s[2], f"{C.INSP}.unwrap"))  # noqa: E731
                 diverted = any((not pol) and T.contains(g, is_own_unwrapped) for g, pol in p.guards())
+                # ... or the branch is reached for classes only (no class is a subscripted generic)
+                if any(val and T.is_call_to(a, "inspect.isclass") for a, val in T.derive_atoms(p.guards())):
+                    diverted = True
                 for g, pol in p.guards():
                     if pol and T.contains(g, lambda s: T.is_call_to(s, f"{C.INSP}.issubscriptedgeneric")) and not diverted:
                         admits_subscripted = True
@@ -209,7 +212,22 @@ def r09_5(prog: Program, rep: Report):
                 mod_bad = True
                 mod_why = f"module= is taken from {T.show(wrong_src[0][2][0])[:50]} instead of the member annotation itself: a NewType/alias defined in another module than the class it wraps is registered under a key the context never asks for"
                 mod_why = "module= is derived from the child's qualified name (a __qualname__ never contains the module): Outer.Inner is deferred with module='Outer'"
-    rep.check(not name_bad, "R09.5", q, f.loc, "the deferred node's name keeps the child's parameters", name_why, detail="name<-qualname")
+    # only a class is denoted by its qualified name: a reference synthesised for anything else (a PEP 604 union, whose text
+    # has no '[' and is cut at its first dot; Final[X], named 'Final'; an alias or NewType, looked for under the name of what
+    # it wraps) denotes something else or nothing
+    by_name_nonclass = [c for c, child, not_class in calls.values() if not_class or not any(True for _ in [0])]
+    guarded = True
+    for p in ps:
+        child = child_of(p)
+        if any(T.is_call_to(c, "typelib.py.refs.forwardref") and "module" in dict(c[3]) for c in p.calls()):
+            atoms = T.derive_atoms(p.guards())
+            if not any(val and T.is_call_to(a, "inspect.isclass") and len(a[2]) == 1 and (a[2][0] == child or T.contains(a[2][0], lambda y: T.is_call_to(y, f"{MOD}._level"))) for a, val in atoms):
+                guarded = False
+    if not guarded and not name_bad:
+        name_bad = True
+        name_why = "a revisited member that is not a class can be deferred as a forward reference built from its printed name: `Foo | None` met twice becomes ForwardRef('Foo | None', module='int | __main__')-like text split at its first dot, Final[Foo] becomes ForwardRef('Final', module='typing'), an alias of list[int] becomes ForwardRef('list') -- the member gets a no-op routine (warning only) or construction raises"
+    del by_name_nonclass
+    rep.check(not name_bad, "R09.5", q, f.loc, "the deferred node's name keeps the child's parameters (only classes are deferred by name)", name_why, detail="name<-qualname")
     rep.check(not mod_bad, "R09.5", q, f.loc, "the deferred node's module comes from the child's __module__", mod_why, detail="module<-qualname")
     rep.check(not qual_bad, "R09.5", q, f.loc, "a deferred class is named by its whole qualified name", qual_bad, detail="name-keeps-qualifier")
 
